@@ -401,3 +401,34 @@ func sortedKeys(m map[string]bool) []string {
 // useBvop records that a query mentions an uninterpreted bit operation; the
 // declaration (or, in bvbridge mode, the definition) is emitted by buildScript.
 func (st *State) useBvop(fn string) { st.decl["bvop:"+fn] = true }
+
+// branch facts: atomic conditions already assumed on this path, by term text.
+func branchKey(c Term) (string, bool) {
+	if strings.HasPrefix(c.S, "(not ") && strings.HasSuffix(c.S, ")") {
+		return c.S[5 : len(c.S)-1], true
+	}
+	return c.S, false
+}
+
+func (st *State) branchFact(c Term) (truth, ok bool) {
+	key, neg := branchKey(c)
+	if st.decl["fact:"+key] {
+		return !neg, true
+	}
+	if st.decl["nfact:"+key] {
+		return neg, true
+	}
+	return false, false
+}
+
+func (st *State) recordBranch(c Term, truth bool) {
+	key, neg := branchKey(c)
+	if neg {
+		truth = !truth
+	}
+	if truth {
+		st.decl["fact:"+key] = true
+	} else {
+		st.decl["nfact:"+key] = true
+	}
+}
